@@ -514,6 +514,15 @@ pub fn run_startup(ctx: &Ctx) {
             });
         }
     }
+    if !ctx.thorough {
+        // many workers with status_interval 10 (publication period 1 s, the only documented value whose timer jitter is
+        // comparable to the period): start-up defects that depend on the jitter drawn per worker show with probability
+        // < 1 per start (seeded change C15-r6: about 0.6 at 16 workers) — three more starts
+        for k in 0..3usize {
+            cfgs.push(ProcCfg { seed: r.bytes(32), workers: Some(16), hc: k == 1, batch: Some(batches[k]), fault: Some(0), status: Some(10),
+                                client_stats: k == 2, env_source: false, example_cfg: false, order: k as u8 });
+        }
+    }
     for c in cfgs {
         startup_case(&mut out, &mut r, &c);
     }
